@@ -58,4 +58,10 @@ def bcAesCbcDec (mkD : Bytes → Bytes → Bytes) (outCap : Nat) (inp key iv : B
   else if key.length ≠ 16 ∧ key.length ≠ 24 ∧ key.length ≠ 32 then none
   else padDecrypt (mkD key) iv inp
 
+/-- the block functions plugged into padEncrypt / padDecrypt: FIPS 197 Cipher / InvCipher under the FIPS 197 key
+    expansion (makeKey2 + rijndaelEncrypt / rijndaelDecrypt of the library compute the same function through tables;
+    `Model/Rijndael.lean` mirrors that table code and the driver compares all three) -/
+def aesE (key : Bytes) : Bytes → Bytes := Relic.Spec.Aes.cipher (Relic.Spec.Aes.keyExpansion key)
+def aesD (key : Bytes) : Bytes → Bytes := Relic.Spec.Aes.invCipher (Relic.Spec.Aes.keyExpansion key)
+
 end Relic.Model.Bc
